@@ -73,11 +73,11 @@ class Findings:
                 self.stop_at = oi
                 self.collect_wf(oi, seen_issues, nospace, name, o)
                 return
+            # (an orphan run left by such a call stays in the directory; the session is judged on: the decoder starts a
+            # run at a slot carrying 0x40, so entries written behind the orphan run decode like the library lists them, and
+            # a successful write leaves the issue text as it was - C01_write_entry_refines_orphans.  An OrphanLfn with a
+            # NEW text at a call that did not fail is therefore still reported as an unknown issue.)
             self.collect_wf(oi, seen_issues, nospace, name, o)
-            if nospace and any(i.startswith("OrphanLfn") for i in jd.wf.get(oi, [])):
-                # the orphan run stays in the directory: what is decoded next to it is not judged any further
-                self.stop_at = oi
-                return
 
     def collect_wf(self, oi, seen, nospace, name, o):
         jd = self.jd
